@@ -5,9 +5,8 @@ From Quill Require Import Queue.BQDefs Backend.BEDefs.
 Import ListNotations.
 Local Open Scope N_scope.
 
-Definition passes_sink (s : st) (e : ev) (k : nat) : bool := slevel (sk s k) <=? elvl e.
+Definition passes_sink (s : st) (e : ev) (k : nat) : bool := sink_accepts (sk s k) e.
 Definition throws_now (s : st) (k : nat) : bool := memb (swrites (sk s k)) (sthrow (sk s k)).
-Definition wid (e : ev) : N := match efmt e with FOk => eid e | _ => 0 end.
 
 (* the sinks that get the line: those passing their own level filter, up to (excluding) the first
    passing sink whose write_log throws *)
@@ -44,15 +43,15 @@ Proof.
   induction ks as [|k r IH]; intros s ND; cbn [dispatch written some_throws flat_map].
   - now rewrite app_nil_r.
   - inversion ND as [|? ? Hnin ND']; subst.
-    unfold passes_sink, throws_now. destruct (slevel (sk s k) <=? elvl e); [|apply IH; assumption].
+    unfold passes_sink, throws_now. destruct (sink_accepts (sk s k) e); [|apply IH; assumption].
     destruct (memb (swrites (sk s k)) (sthrow (sk s k))); cbn [fst snd flat_map].
     + now rewrite app_nil_r.
     + match goal with |- context [dispatch ?s1 e r] => destruct (IH s1 ND') as [A B]; rewrite A, B end.
-      assert (Hext : forall k', In k' r -> sk (add_obs (set_sk s (upd (sk s) k {| slevel := slevel (sk s k); swrites := S (swrites (sk s k)); sthrow := sthrow (sk s k) |}))
-                                               [O_WRITE; N.of_nat k; (match efmt e with FOk => eid e | _ => 0 end); elvl e]) k' = sk s k').
+      assert (Hext : forall k', In k' r -> sk (add_obs (set_sk s (upd (sk s) k (bump_swrites (sk s k))))
+                                               [O_WRITE; N.of_nat k; wid e; elvl e]) k' = sk s k').
       { intros k' Hin. cbn. unfold upd. destruct (Nat.eqb_spec k' k) as [->|]; [contradiction|reflexivity]. }
       rewrite (written_ext _ _ _ _ Hext), (some_throws_ext _ _ _ _ Hext).
-      cbn [obs add_obs set_sk]. unfold wid. rewrite <- app_assoc. split; reflexivity.
+      cbn [obs add_obs set_sk]. rewrite <- app_assoc. split; reflexivity.
 Qed.
 
 (* a sink gets the line iff it passes its own filter and no earlier passing sink threw: independent of
